@@ -441,7 +441,7 @@ func TestCheck(t *testing.T) {
 			r.Require(r.Counter("body_then_big_reply_exchanges") == int64(m), "the request-body + large-reply phase did not run")
 			r.Require(r.Counter("forwarded_judged") >= int64(n/2), "too few forwarded exchanges were judged")
 			for _, c := range termClasses {
-				r.Require(r.Counter("terminated_"+c) >= int64(n/150), "too few terminated requests of class "+c)
+				r.Require(r.Counter("terminated_judged_"+c) >= int64(n/150), "too few requests of class "+c+" were actually terminated by the gateway (premise of the class not met?)")
 			}
 			r.Require(r.Counter("request_body_bytes") > 1<<20 && r.Counter("response_body_bytes") > 1<<20, "too little body data crossed the gateway")
 			r.Require(r.Counter("upgrade_101_echoed") > 0 && r.Counter("upgrade_refused_relayed") > 0, "the upgrade path was not exercised")
@@ -1265,6 +1265,16 @@ func runTerminated(r *vkit.R, tb *testbed, i int, g *vkit.Rand, big bool) {
 		}
 		return
 	}
+	// The statement is about requests the gateway TERMINATES ITSELF. Whether it does (a max-in-flight 0 schema refuses, a
+	// disabled endpoint is not picked, a denied impersonation is refused, ...) is the premise of the class and belongs to
+	// other properties (C05, C03, C02): when the client holds the relayed answer of a stub upstream (its marker header), the
+	// gateway did not terminate this exchange and there is nothing for C04 to judge. A gateway-generated answer next to a
+	// request (or a fragment) at an upstream is the violation.
+	if resp.Header.Get("X-Verif-Stub") != "" {
+		r.Count("terminated_premise_not_met_"+class, 1)
+		return
+	}
+	r.Count("terminated_judged_"+class, 1)
 	// not forwarded, not even partially: no stub of this gateway saw a request head or a fragment of one
 	if after != before || afterP != beforeP {
 		what := "a complete request head"
